@@ -1,9 +1,9 @@
-\* MISUSE Map<K,Orswot>, nested half: replicas 1 and 2 both edit through actor 1, replica 3 through actor 3, one key; after the script one more edit;
+\* MISUSE Map<K,Orswot>, nested half: replicas 1 and 2 both edit through actor 1, replica 3 through actor 3, two keys; after the script one more edit;
 \* only validate_merge is judged (the nested Orswot::validate_merge is consulted only for a key whose entry clocks are concurrent)
 CONSTANTS
   DescName = "or"
   NReps = 3
-  NKeys = 1
+  NKeys = 2
   NMembers = 2
   NVals = 1
   MaxOps = 4
